@@ -180,6 +180,12 @@ def fail(res, what, replay):
     """res.fail, with the proposed findings consulted in addition to known_findings.json"""
     listed = {k.get('id') for k in load_known()}
     for k in PROPOSED_FINDINGS:
+        if k.get('status') == 'fixed' and common_matches(k, what, replay):
+            # repaired in /repo (commit k['fixed_by']): a reappearance is a violation even while known_findings.json
+            # still carries the entry as "known"
+            res.failures.append({'what': what + f"  [regression of {k['id']}, fixed by {k['fixed_by']}]", 'replay': replay})
+            return
+    for k in PROPOSED_FINDINGS:
         if k.get('status') == 'known' and k['id'] not in listed and common_matches(k, what, replay):
             res.known_hits.append((k, what))
             return
